@@ -22,7 +22,24 @@ use p2panda_auth::{Access, AccessLevel};
 use p2panda_core::cbor::{decode_cbor, encode_cbor};
 use serde::de::{DeserializeOwned, IgnoredAny};
 use serde::{Deserialize, Serialize};
-use simcore::{ctx, ev, violation};
+use simcore::{ctx, violation};
+
+/// Trace event; with `GROUPWORLD_LIVE=1` also echoed to stderr at once (to look at a run that
+/// does not come back).
+macro_rules! evl {
+    ($($arg:tt)*) => {{
+        let line = format!($($arg)*);
+        if live() {
+            eprintln!("  {line}");
+        }
+        simcore::ctx::event(line);
+    }};
+}
+
+fn live() -> bool {
+    static LIVE: std::sync::OnceLock<bool> = std::sync::OnceLock::new();
+    *LIVE.get_or_init(|| std::env::var("GROUPWORLD_LIVE").is_ok())
+}
 
 pub type Id = char;
 pub type OpId = u32;
@@ -203,7 +220,66 @@ pub type MemView<C> = Vec<(Id, u8, Option<C>)>;
 #[derive(Clone, Debug, PartialEq, Eq)]
 pub struct Views<C> {
     pub groups: BTreeMap<Id, (RootView<C>, MemView<C>)>,
+    /// Groups whose `members()` was not asked because it would not come back (see
+    /// `nesting_walks`); their member view is left empty.
+    pub skipped: BTreeMap<Id, u64>,
 }
+
+/// `members_inner` keeps no visited set: it follows every walk through the nesting graph up to
+/// `MAX_NESTED_DEPTH` = 1000 levels. With one simple nesting cycle that is 1000 steps; with two
+/// cycles through one group it is exponential. The number of walks it would follow from `g`
+/// (saturating), computed from the replica's own root views.
+pub fn nesting_walks<C: Cond>(roots: &BTreeMap<Id, RootView<C>>, g: Id) -> u64 {
+    let children = |x: Id| -> Vec<Id> {
+        roots.get(&x).map(|rv| rv.iter().filter_map(|(m, _, _)| if let GroupMember::Group(c) = m { Some(*c) } else { None }).collect()).unwrap_or_default()
+    };
+    // cycle reachable from g?
+    let mut cyclic = false;
+    let mut stack = vec![(g, vec![g])];
+    let mut budget = 10_000;
+    while let Some((x, path)) = stack.pop() {
+        budget -= 1;
+        if budget == 0 {
+            cyclic = true;
+            break;
+        }
+        for c in children(x) {
+            if path.contains(&c) {
+                cyclic = true;
+            } else {
+                let mut p = path.clone();
+                p.push(c);
+                stack.push((c, p));
+            }
+        }
+    }
+    if !cyclic {
+        return 1;
+    }
+    let ids: Vec<Id> = roots.keys().copied().collect();
+    let mut cur: BTreeMap<Id, u64> = ids.iter().map(|i| (*i, 1u64)).collect();
+    let mut total: u64 = 0;
+    for _ in 0..1000 {
+        let mut next: BTreeMap<Id, u64> = BTreeMap::new();
+        for i in &ids {
+            let mut n: u64 = 0;
+            for c in children(*i) {
+                n = n.saturating_add(*cur.get(&c).unwrap_or(&0));
+            }
+            next.insert(*i, n);
+        }
+        total = total.saturating_add(*next.get(&g).unwrap_or(&0));
+        cur = next;
+        if total == u64::MAX {
+            break;
+        }
+    }
+    total
+}
+
+/// More walks than this and the harness does not call `members()` (each walk step costs a
+/// `current_state()`); a single simple cycle is 1000.
+pub const WALK_LIMIT: u64 = 5_000;
 
 pub fn root_view<C: Cond>(y: &State<C>, g: Id) -> RootView<C> {
     let mut v: RootView<C> = y.root_members(g).into_iter().map(|(m, a)| (m, lvl(&a.level), a.conditions)).collect();
@@ -218,11 +294,20 @@ pub fn mem_view<C: Cond>(y: &State<C>, g: Id) -> MemView<C> {
 }
 
 pub fn views_of<C: Cond>(y: &State<C>, groups: &[Id]) -> Views<C> {
+    let roots: BTreeMap<Id, RootView<C>> = groups.iter().map(|g| (*g, root_view(y, *g))).collect();
     let mut out = BTreeMap::new();
+    let mut skipped = BTreeMap::new();
     for g in groups {
-        out.insert(*g, (root_view(y, *g), mem_view(y, *g)));
+        let walks = nesting_walks(&roots, *g);
+        let mv = if walks > WALK_LIMIT {
+            skipped.insert(*g, walks);
+            vec![]
+        } else {
+            mem_view(y, *g)
+        };
+        out.insert(*g, (roots[g].clone(), mv));
     }
-    Views { groups: out }
+    Views { groups: out, skipped }
 }
 
 fn show_root<C: Cond>(v: &RootView<C>) -> String {
@@ -413,7 +498,7 @@ impl<C: Cond> World<C> {
                 snapshots: vec![],
             })
             .collect();
-        ev!(
+        evl!(
             "world: {} replicas {:?}, passive identities {:?}, conditions {}, faults: reorder={} duplicate={} partition={} cbor-reload={} byzantine={} ids={}",
             n_rep,
             &idents[..n_rep],
@@ -652,7 +737,7 @@ impl<C: Cond> World<C> {
         }
         let seq = self.register(op, None);
         let out = self.apply(r, seq);
-        ev!("{} publishes {} -> {}", self.reps[r].actor, self.show_op(seq), out);
+        evl!("{} publishes {} -> {}", self.reps[r].actor, self.show_op(seq), out);
         if out != "ok" {
             // Not published. (A locally rejected honest operation is allowed by both properties.)
             ctx::probe("honest_op_rejected_locally");
@@ -740,7 +825,7 @@ impl<C: Cond> World<C> {
                             // Would close a nesting cycle somewhere in the world. The crate only
                             // rejects cycles visible at the dependencies; concurrent ones are met by
                             // the depth cap. Allowed once per run, rarely.
-                            if self.cycle_allowed || !ctx::chance("addgroup.cycle", 1, 8) {
+                            if self.cycle_allowed || !ctx::chance("addgroup.cycle", 1, 16) {
                                 return None;
                             }
                             self.cycle_allowed = true;
@@ -859,7 +944,7 @@ impl<C: Cond> World<C> {
                 (a1, a2)
             }
         };
-        ev!("conflict scenario {kind}: {} and {} act concurrently in g{g}", self.reps[m1].actor, self.reps[m2].actor);
+        evl!("conflict scenario {kind}: {} and {} act concurrently in g{g}", self.reps[m1].actor, self.reps[m2].actor);
         let s1 = self.act(m1, g, a1);
         // m2 has not been handed m1's operation (deliveries only happen in delivery steps), so the
         // two are concurrent whatever the network does later.
@@ -939,7 +1024,7 @@ impl<C: Cond> World<C> {
         let id = self.next_id();
         let seq = self.register(SimOp { id, author, dependencies: deps, group_id: g, action }, Some(label));
         ctx::fault(label);
-        ev!("BYZANTINE [{}] {} (view of {})", &label["byzantine_op.".len()..], self.show_op(seq), self.reps[v].actor);
+        evl!("BYZANTINE [{}] {} (view of {})", &label["byzantine_op.".len()..], self.show_op(seq), self.reps[v].actor);
         self.broadcast(seq, v, false);
     }
 
@@ -980,7 +1065,7 @@ impl<C: Cond> World<C> {
             }
         }
         if !log.is_empty() {
-            ev!("deliver to {}: {}", self.reps[r].actor, log.join(" "));
+            evl!("deliver to {}: {}", self.reps[r].actor, log.join(" "));
         }
     }
 
@@ -992,7 +1077,7 @@ impl<C: Cond> World<C> {
         }
         let seq = *ctx::pick("dup.which", &done);
         self.reps[r].pool.push(seq);
-        ev!("network duplicates #{seq} towards {}", self.reps[r].actor);
+        evl!("network duplicates #{seq} towards {}", self.reps[r].actor);
     }
 
     /// Everything any member of a partition has (processed or in flight) flows to the others.
@@ -1042,7 +1127,7 @@ impl<C: Cond> World<C> {
         }
         self.partitioned_now = distinct.len() > 1;
         let names: Vec<String> = distinct.iter().map(|p| (0..n).filter(|r| parts[*r] == *p).map(|r| self.reps[r].actor).collect::<String>()).collect();
-        ev!("network: partitions {{{}}}", names.join(" | "));
+        evl!("network: partitions {{{}}}", names.join(" | "));
     }
 
     fn heal_all(&mut self) {
@@ -1050,7 +1135,7 @@ impl<C: Cond> World<C> {
             r.part = 0;
         }
         if self.partitioned_now {
-            ev!("network: all partitions healed");
+            evl!("network: all partitions healed");
         }
         self.partitioned_now = false;
         self.gossip();
@@ -1076,7 +1161,7 @@ impl<C: Cond> World<C> {
                     progress = true;
                 }
                 if !log.is_empty() {
-                    ev!("deliver to {}: {}", self.reps[r].actor, log.join(" "));
+                    evl!("deliver to {}: {}", self.reps[r].actor, log.join(" "));
                 }
             }
             self.gossip();
@@ -1323,6 +1408,9 @@ impl<C: Cond> World<C> {
                             }
                         }
                     }
+                }
+                if nesting_walks(&roots, *g) > WALK_LIMIT {
+                    continue;
                 }
                 for (i, _, _) in mem_view(&rep.state, *g) {
                     let found = reach.iter().any(|x| roots.get(x).map(|rv| rv.iter().any(|(m, _, _)| *m == GroupMember::Individual(i))).unwrap_or(false));
@@ -1574,6 +1662,14 @@ impl<C: Cond> World<C> {
         let mut by_set: BTreeMap<Vec<usize>, Vec<(String, Views<C>, usize)>> = BTreeMap::new();
         for (ri, rep) in self.reps.iter().enumerate() {
             let v1 = views_of(&rep.state, &groups);
+            if let Some((g, walks)) = v1.skipped.iter().next() {
+                ctx::probe("members_query_would_not_return");
+                violation(
+                    "members-query-does-not-return",
+                    "members_inner keeps no visited set: it follows every walk through a nesting cycle up to MAX_NESTED_DEPTH=1000, which is exponential once two nesting cycles (created by concurrent, individually valid adds) pass through one group",
+                    format!("replica {}: members(g{g}) would follow {} walks, each step a current_state() (harness did not call it)", rep.actor, if *walks == u64::MAX { ">= 2^64".to_string() } else { walks.to_string() }),
+                );
+            }
             // Repeated queries on one replica.
             for _ in 0..2 {
                 let v2 = views_of(&rep.state, &groups);
@@ -1666,7 +1762,7 @@ impl<C: Cond> World<C> {
             }
             if let Some((_, group)) = by_set.iter().next() {
                 for (g, (rv, mv)) in &group[0].1.groups {
-                    ev!("final g{g}: root [{}] members [{}]", show_root(rv), show_mem(mv));
+                    evl!("final g{g}: root [{}] members [{}]", show_root(rv), show_mem(mv));
                 }
             }
         }
@@ -1687,7 +1783,7 @@ impl<C: Cond> World<C> {
         self.drain();
         let stuck: Vec<String> = self.reps.iter().filter(|r| !r.pool.is_empty()).map(|r| format!("{}:{:?}", r.actor, r.pool)).collect();
         if !stuck.is_empty() {
-            ev!("undeliverable (dependencies refused there): {}", stuck.join(" "));
+            evl!("undeliverable (dependencies refused there): {}", stuck.join(" "));
         }
         self.probe_history();
         if self.ops.iter().filter(|o| !o.accepted_by.is_empty()).count() >= 4 {
@@ -1700,7 +1796,7 @@ impl<C: Cond> World<C> {
             self.check_traceback();
             let groups = self.groups.clone();
             for (g, (rv, mv)) in &views_of(&self.reps[0].state, &groups).groups {
-                ev!("final at {} g{g}: root [{}] members [{}]", self.reps[0].actor, show_root(rv), show_mem(mv));
+                evl!("final at {} g{g}: root [{}] members [{}]", self.reps[0].actor, show_root(rv), show_mem(mv));
             }
         }
     }
